@@ -8,6 +8,7 @@ package locks
 import (
 	"context"
 	"fmt"
+	"math"
 	"runtime"
 	"strings"
 	"sync"
@@ -479,6 +480,13 @@ func failingCall(b *eventlogger.Broker, which string) error {
 		default:
 			err = b.Reopen(cctx)
 		}
+	case "send-threshold-huge":
+		// thresholds are only required to be non-negative: a Send under a threshold nobody can meet reports the shortfall
+		b.SetSuccessThreshold("inner", math.MaxInt)
+		b.SetSuccessThresholdSinks("inner", math.MaxInt)
+		_, err = b.Send(ctx, "inner", "x")
+		b.SetSuccessThreshold("inner", 0)
+		b.SetSuccessThresholdSinks("inner", 0)
 	case "send-threshold-unmet":
 		b.SetSuccessThreshold("inner", 5)
 		_, err = b.Send(ctx, "inner", "x")
@@ -491,7 +499,7 @@ func failingCall(b *eventlogger.Broker, which string) error {
 var FailingCalls = []string{"rpan-unknown-pipeline", "rpan-unknown-type", "rpan-empty", "rpan-twice", "removepipeline-unknown-type", "removepipeline-empty",
 	"removenode-unknown", "removenode-inuse", "removenode-empty", "registernode-empty", "registernode-deny", "registernode-badpolicy",
 	"registerpipeline-unknown-node", "registerpipeline-malformed", "registerpipeline-empty", "registerpipeline-deny", "registerpipeline-badpolicy",
-	"threshold-negative", "threshold-empty", "thresholdsinks-negative", "thresholdsinks-empty", "send-unknown-type", "send-precancelled", "send-threshold-unmet",
+	"threshold-negative", "threshold-empty", "thresholdsinks-negative", "thresholdsinks-empty", "send-unknown-type", "send-precancelled", "send-threshold-unmet", "send-threshold-huge",
 	"rpan-precancelled", "removenode-precancelled", "reopen-precancelled"}
 
 // Scenarios enumerates operation x re-entering callback x pending groups x parked writer.
